@@ -28,3 +28,9 @@ package controller
 //@ func (Input).Compare
 //@   trusted
 //@   pure
+
+// Accessors of the requeue request are one-liners: inlined.
+//@ func (*RequeueError).Interval
+//@   inline
+//@ func (*RequeueError).Err
+//@   inline
